@@ -204,6 +204,12 @@ impl DatabaseCheckpoint {
 		// Step 7: Copy VLog directories if enabled
 		let vlog_size = self.copy_vlog_directories(checkpoint_path)?;
 
+		// Step 7b: Copy the version index (B+tree) if enabled. With the index enabled,
+		// history and time-travel reads of flushed data are served from it alone, so a
+		// checkpoint without it would not answer them (and restoring such a checkpoint
+		// would leave the index of the discarded timeline in place).
+		let index_size = self.copy_versioned_index(checkpoint_path)?;
+
 		// Step 8: Create checkpoint metadata
 		let timestamp = SystemTime::now().duration_since(UNIX_EPOCH).unwrap().as_secs();
 
@@ -211,7 +217,7 @@ impl DatabaseCheckpoint {
 			timestamp,
 			sequence_number,
 			sstable_count,
-			sstables_size + manifest_size + vlog_size,
+			sstables_size + manifest_size + vlog_size + index_size,
 		);
 
 		// Step 9: Write metadata file
@@ -260,6 +266,9 @@ impl DatabaseCheckpoint {
 
 		// Restore VLog directories if they exist in the checkpoint
 		self.restore_vlog_directories(checkpoint_path)?;
+
+		// Restore the version index (B+tree) file; the caller re-opens the tree
+		self.restore_versioned_index(checkpoint_path)?;
 
 		Ok(metadata)
 	}
@@ -370,6 +379,40 @@ impl DatabaseCheckpoint {
 		}
 
 		Ok(total_size)
+	}
+
+	/// Copies the version index file into the checkpoint (all memtables have been
+	/// flushed, so the file is complete once synced).
+	fn copy_versioned_index(&self, dest_dir: &Path) -> Result<u64> {
+		let Some(ref versioned_index) = self.core.versioned_index else {
+			return Ok(0);
+		};
+		versioned_index.write().sync()?;
+		let source = self.core.opts.versioned_index_dir();
+		let dest = dest_dir.join("versioned_index");
+		if source.exists() {
+			copy_dir_all(&source, &dest).map_err(|e| Error::Io(Arc::new(e)))?;
+			return Self::calculate_directory_size(&dest);
+		}
+		Ok(0)
+	}
+
+	/// Replaces the version index file with the one from the checkpoint.
+	fn restore_versioned_index(&self, checkpoint_path: &Path) -> Result<()> {
+		if self.core.versioned_index.is_none() {
+			return Ok(());
+		}
+		let source = checkpoint_path.join("versioned_index");
+		let dest = self.core.opts.versioned_index_dir();
+		if dest.exists() {
+			fs::remove_dir_all(&dest).map_err(|e| Error::Io(Arc::new(e)))?;
+		}
+		if source.exists() {
+			copy_dir_all(&source, &dest).map_err(|e| Error::Io(Arc::new(e)))?;
+		} else {
+			fs::create_dir_all(&dest).map_err(|e| Error::Io(Arc::new(e)))?;
+		}
+		Ok(())
 	}
 
 	/// Calculates the total size of a directory recursively
